@@ -12,6 +12,7 @@ import LimnoriaModel.C18.PluginCons
 import LimnoriaModel.C18.Threads
 import LimnoriaModel.C18.HeapLemmas
 import LimnoriaModel.C18.HeapHole
+import LimnoriaModel.C18.Refine
 import LimnoriaModel.C18.Loop
 namespace C18
 open Py List
@@ -568,5 +569,29 @@ example : (Plug.prun (Plug.pinit 1000) [.repeat_ ['r'] 10 1 0, .tick 3, .run [.s
 -- … until the next reload or restart, which puts it back on the grid (1010)
 example : (Plug.prun (Plug.pinit 1000) [.repeat_ ['r'] 10 1 0, .tick 3, .run [.str ['r']], .tick 1, .reload]).map
       (fun r => r.1.sched.map (·.t)) = some [1010] := by decide
+
+/-! ## the plugin model refines the core scheduler model -/
+
+open Plug in
+/-- **Refinement**: the schedule inside the plugin model is the core scheduler driven through its API.
+For every history of plugin operations from a fresh bot there is a sequence of core calls —
+`addEvent`, `removeEvent`, heads of iterations of `run()` (each a *valid* pick of the core model: due
+and of minimal due time), clock ticks, a new process at each restart — from the fresh core scheduler
+to a core state with the same due times and names in the same order, the same counter and the same
+clock (`Sim`); the core invariant holds there. -/
+theorem plugin_refines_core (now : Nat) (ops : List Plug.POp) (r : Plug.PState × List Plug.PEv)
+    (h : Plug.prun (Plug.pinit now) ops = some r) :
+    ∃ calls c, coreRun (init now) calls = some c ∧ Sim r.1 c := by
+  obtain ⟨c, ⟨calls, hc⟩, hs⟩ := prun_ref ops _ _ r (pinit_sim now) h
+  exact ⟨calls, c, hc, hs⟩
+
+open Plug in
+/-- … hence what the core invariant says holds of the plugin's schedule, by transfer rather than by
+a proof of its own: no name is scheduled twice. -/
+theorem plugin_names_unique_by_refinement (now : Nat) (ops : List Plug.POp) (r : Plug.PState × List Plug.PEv)
+    (h : Plug.prun (Plug.pinit now) ops = some r) : (snames r.1.sched).Nodup := by
+  obtain ⟨_, c, _, hs⟩ := plugin_refines_core now ops r h
+  rw [snames_eq hs]
+  exact hs.inv.schedNodup
 
 end C18
